@@ -1,8 +1,9 @@
 SPECIFICATION FaultSpec
 CONSTANTS
- Classes <- SmallClasses
- HashedClasses <- SmallClasses
+ Classes <- FaultClasses
+ HashedClasses <- FaultClasses
  VizHashed = TRUE
+ FlagOverwritesConfig = FALSE
  EventsHashed = TRUE
  NOrders = 1
  KeyDependsOnOrder = FALSE
@@ -16,7 +17,6 @@ CONSTANTS
  MaxEnv = 1
  MaxRuns = 3
  MaxFaults = 1
-VIEW View
 CONSTRAINT FaultConstraint
 INVARIANT EmitHist
 CHECK_DEADLOCK FALSE
